@@ -1,12 +1,37 @@
 CFG = {'assumptions': ["64*len(words) < 2^31 (Go's int32 positions cannot overflow; larger bitmaps are outside every "
-                 'statement)',
-                 'every word is in [0,2^64) (words_ok)'],
+                 'statement; the int32 theorems say what happens at that boundary: Rank64 still answers on every '
+                 'int32 position of a larger bitmap, Rank128 panics on positions >= 2^31-64)',
+                 'every word is in [0,2^64) (words_ok)',
+                 'bitmap.Rank/any, bitmap.Rank/rle: any int32 position; the specification speaks for positions inside the '
+                 'bitmap only - outside (a panic as of now) just model = implementation is compared; bitmap.Rank/laws: 0 <= i <= j < 64*len(words); bitmap.Rank/concat: 0 <= i < 64*(len(a)+len(b)); '
+                 'bitmap.Rank/history: every step names an existing bitmap / word'],
  'files': ['bitmap/rank.go', 'bitmap/mask.go'],
  'go': {'bitmap.IndexRank128': 'bitmap.IndexRank128',
         'bitmap.IndexRank64': 'bitmap.IndexRank64',
-        'bitmap.Rank128': 'bitmap.Rank128',
-        'bitmap.Rank64': 'bitmap.Rank64'},
- 'rule': 'cases = exhaustive sweeps (constant bitmaps of 0..5 words, single/two-bit words in every slot x all '
-         'positions) + random bitmaps of 1..40 words from a 10-pattern word mix with positions biased to 64/128-bit '
-         'boundaries; a rank case is non-trivial when there are 1-bits before the queried word, and inside it both '
-         'below and at/above i; an index case when the bitmap has >1 word and >0 bits; distinct = distinct (op,args)'}
+        'bitmap.Rank128': 'bitmap.Rank128(words, bitmap.IndexRank128(words), i)',
+        'bitmap.Rank64': 'bitmap.Rank64(words, bitmap.IndexRank64(words, trailing), i)',
+        'bitmap.Rank64/held': 'the same with indexes of a decoy bitmap built between building and querying',
+        'bitmap.Rank128/held': 'the same with indexes of a decoy bitmap built between building and querying',
+        'bitmap.Rank/any': 'Rank64 / Rank128 with a freshly built index at ANY int32 position (P = panic)',
+        'bitmap.Rank/laws': 'the three flavours (IndexRank64, IndexRank64 trailing, IndexRank128) at two positions i <= j '
+                            'plus the trailing total; judged by the laws alone (agreement, step, monotone, bounds, end)',
+        'bitmap.Rank/concat': 'Rank on append(a, b) against the piecewise computation from the indexes of a and of b',
+        'bitmap.Rank/complement': 'Rank on words and on the word-wise complement at the same position (counts add up to i, bits to 1)',
+        'bitmap.IndexRank/all': 'IndexRank64(words), IndexRank64(words, true), IndexRank128(words) side by side',
+        'bitmap.IndexRank/rle': 'the same on a run-length encoded bitmap [[count, word], ...]',
+        'bitmap.Rank/rle': 'Rank64 / Rank128 on a run-length encoded bitmap',
+        'bitmap.Rank/history': 'several bitmaps with HELD indexes, queried in any order; a word is overwritten IN PLACE and '
+                               'the same backing slice is re-indexed (order of the IndexRank64 calls alternating)'},
+ 'rule': 'cases = held indexes over ascending sizes; exhaustive sweeps (constant bitmaps of 0..5 words, single/two-bit '
+         'words in every slot x all positions); random bitmaps of 1..40 words from a 10-pattern word mix with positions '
+         'biased to 64/128-bit boundaries; large bitmaps (dense / sparse / all-ones, 17..2049 words: positions next to '
+         '2^8, 2^10, 2^15, 2^16, 2^17 and next to the word where the running count crosses 2^8, 2^15, 2^16); any int32 '
+         'position inside / next to / far outside bitmaps of 0..12 words incl. the int32 extremes; law bundles at '
+         'equal / adjacent / same-word / same-block / far positions and every adjacent pair of 3-word bitmaps; '
+         'two-piece bitmaps with pieces of 0..9 words, positions around the seam; side-by-side indexes of 0..12 '
+         'words; run-length encoded bitmaps of 1024/1280/2048/4100 words with an all-zero run aligned to a '
+         '64..1024-word boundary after a non-empty prefix (indexes + probes right after the run); histories over 2..4 '
+         'bitmaps (several of the same length, some sharing their low halves) and over ONE bitmap whose middle words are '
+         'overwritten in place. Non-trivial: a rank case when there are 1-bits before the queried word, and inside it '
+         'both below and at/above i; an index case when the bitmap has >1 word and >0 bits; every widening case with '
+         '1-bits on the relevant sides; distinct = distinct (op,args)'}
